@@ -53,10 +53,10 @@ SUITES = {
     "initd": dict(
         mc=[dict(module="MC_Init", cfg=tiered("MC_Init.cfg", "MC_Init_thorough.cfg"),
                  timeout=tiered(900, 5400), workers=tiered(4, 8))],
-        sim=dict(module="MC_Init", cfg="Sim_Init.cfg", num=tiered(30, 600), depth=14),
-        tour_cap=tiered(1200, 10 ** 9),
+        sim=dict(module="MC_Init", cfg="Sim_Init.cfg", num=tiered(20, 600), depth=14),
+        tour_cap=tiered(900, 10 ** 9),
         driver="initd",
-        driver_args=lambda tier: ["--random", 300 if tier == "quick" else 6000, "--len", 14],
+        driver_args=lambda tier: ["--random", 200 if tier == "quick" else 6000, "--len", 14],
         trace=dict(module="Trace_Init", cfg_in="Trace_Init.cfg.in"),
         props=["C20"],
     ),
